@@ -1,6 +1,7 @@
 """History stream for C01/C13: ONE SBC instance clusters successive structures (the same atoms first with
-another periodicity, then as given); every answer must equal that of a fresh SBC() and every returned
-cluster must satisfy the C13 predicate (shortcut == direct get_dimensionality on the cluster's atoms)."""
+another periodicity, then the same atoms with other radii / thresholds (case["prior"]), then as given); every
+answer must equal that of a fresh SBC() and every returned cluster must satisfy the C13 predicate
+(shortcut == direct get_dimensionality on the cluster's atoms with the radii and threshold of THAT call)."""
 import json
 import os
 import sys
@@ -24,12 +25,23 @@ def canon(clusters):
     return sorted(sorted(int(i) for i in c.indices) for c in clusters)
 
 
+def real_kwargs(kw):
+    kw = dict(kw)
+    if isinstance(kw.get("radii"), dict):
+        kw["radii"] = np.asarray(kw["radii"]["array"], dtype=float)
+    return kw
+
+
 def dims_ok(clusters, thr, radii):
     bad = []
     for c in clusters:
         sc = c.get_dimensionality()
         at = c.get_atoms()
-        direct = G.get_dimensionality(at, thr, radii=G.get_radii(radii, at.get_atomic_numbers()))
+        if isinstance(radii, str):
+            rr = G.get_radii(radii, at.get_atomic_numbers())
+        else:
+            rr = np.asarray(radii, dtype=float)[[int(i) for i in c.indices]]
+        direct = G.get_dimensionality(at, thr, radii=rr)
         again = c.get_dimensionality()
         if sc != direct or sc != again:
             bad.append({"indices": sorted(int(i) for i in c.indices)[:12], "n": len(c.indices), "shortcut": sc, "direct": direct, "again": again})
@@ -43,7 +55,7 @@ for case in req["cases"]:
     row = {"id": case["id"]}
     try:
         with time_limit(case.get("time_limit", 180)):
-            kw = dict(case.get("kwargs", {}))
+            kw = real_kwargs(case.get("kwargs", {}))
             thr = kw.get("bond_threshold", 0.65)
             radii = kw.get("radii", "covalent")
             at = Atoms(numbers=s["numbers"], positions=s["positions"], cell=s["cell"], pbc=s["pbc"])
@@ -53,6 +65,14 @@ for case in req["cases"]:
                 shared.get_clusters(alt, **kw)       # history: same atoms, other periodicity
             except ValueError:
                 pass
+            row["prior_dim_mismatch"] = []
+            for pk in case.get("prior", []):      # history: the very same atoms, other radii / thresholds
+                pk = real_kwargs(pk)
+                try:
+                    pc = shared.get_clusters(at, **pk)
+                    row["prior_dim_mismatch"] += dims_ok(pc, pk.get("bond_threshold", 0.65), pk.get("radii", "covalent"))
+                except ValueError:
+                    pass
             got = shared.get_clusters(at, **kw)
             ref = SBC().get_clusters(at, **kw)
             row["same_as_fresh"] = canon(got) == canon(ref)
